@@ -207,6 +207,18 @@ def _once(case, acc, tree, labels):
     bounds = [None, 0, c - 1, c, c + 1]
     bounds = [b for i, b in enumerate(bounds) if b is None or (b >= 0 and b not in bounds[:i])]
 
+    # bounds that are not whole numbers (an average, a ratio of a total) and an infinite upper bound: CountError iff the
+    # number of matches is below mincount or above maxcount - compared as numbers (the wording of the message is not judged)
+    for mincount, maxcount in ((c - 0.5, None), (c + 0.5, None), (None, c - 0.5), (None, c + 0.5), (0.5, c + 0.5), (None, float("inf")), (c, float("inf"))):
+        if (mincount is not None and mincount < 0) or (maxcount is not None and maxcount < 0):
+            continue
+        must_raise = (mincount is not None and c < mincount) or (maxcount is not None and c > maxcount)
+        for func in (search.findall, cachedsearch.findall):
+            out = outcome(func, start, filter_=filter_, stop=stop, maxlevel=maxlevel, mincount=mincount, maxcount=maxcount)
+            if must_raise != (out[0] == "CountError") or (not must_raise and (out[0] != "ok" or not refs.same_seq(out[1], expected))):
+                raise Violation("counterror-missing" if must_raise else "counterror-spurious", "%s.findall mincount=%r maxcount=%r with %d matches: %s" % (func.__module__, mincount, maxcount, c, out[0]))
+    acc.tag("count_bounds_that_are_not_whole_numbers")
+
     for mincount in bounds:
         for maxcount in bounds:
             out = outcome(search.findall, start, filter_=filter_, stop=stop, maxlevel=maxlevel, mincount=mincount, maxcount=maxcount)
@@ -336,6 +348,31 @@ def _once(case, acc, tree, labels):
             cached = attempt(getattr(cachedsearch, name_), **{which: flaky()})
             if plain != cached:
                 raise Violation("cachedsearch-" + name_, "with a %s that raises TypeError on its second call, search.%s gives %r and cachedsearch.%s gives %r" % (which, name_, plain, name_, cached))
+
+    # values that are themselves callable (a class stored as 'kind', a handler function, a partial): a value is compared, never called
+    import functools
+
+    def handler(x):
+        raise AssertionError("a searched value was called with %r" % (x,))
+
+    callables = [str, int, handler, functools.partial(handler, 1)]
+    marked = []
+    for i, node in enumerate(refs.preorder(start)):
+        if isinstance(node, anytree.SymlinkNodeMixin) or not hasattr(node, "__dict__"):
+            continue
+        node.__dict__["kind_"] = callables[i % len(callables)]
+        marked.append(node)
+    try:
+        for wanted in callables:
+            want_nodes = [n for n in refs.restricted(refs.preorder(start), refs.admitted_ids(start, set(), case.get("read_as", maxlevel)), set()) if any(n is m for m in marked) and n.__dict__["kind_"] is wanted]
+            for mod in (search, cachedsearch):
+                out = outcome(mod.findall_by_attr, start, wanted, name="kind_", maxlevel=maxlevel)
+                if out[0] != "ok" or not refs.same_seq(out[1], want_nodes):
+                    raise Violation("by-attr-result", "%s.findall_by_attr(value=%r, name='kind_'): %s %s, expected the %d nodes whose attribute IS that object" % (mod.__name__, wanted, out[0], labels.labels(out[1]) if out[0] == "ok" else out[1], len(want_nodes)))
+    finally:
+        for node in marked:
+            del node.__dict__["kind_"]
+    acc.tag("searched_values_that_are_callable")
 
     # by attribute
     name, value = case["by"]["name"], val(case["by"]["value"])
